@@ -1,9 +1,12 @@
 (* Properties_C10.v — property C10: equal values hash equally; hash is a function of the value;
    copy / assign give equal values; swap exchanges.  Only statements closed by `exact`, each followed
-   by Print Assumptions.  hash_m, hash_r, hash_seed, float_hash_normalises_zero, table_cmp_by_lookup,
-   table_swap, table_primes, table_load_* come from Generated.v, re-extracted from the C source on
-   every run: if Float_Hash or Table_Cmp go back to their pinned shape the two booleans become
-   `false` and the statements below no longer type-check against the lemmas. *)
+   by Print Assumptions.  hash_m, hash_r, hash_seed, hash_tail_shape, float_hash_shape, float_cmp_form,
+   memswap_plan, table_cmp_by_lookup, table_swap, table_primes, table_load_* come from Generated.v,
+   re-extracted from the C source on every run.  The theorems hold for every admissible value of these
+   parameters (the side conditions fh_normalising float_hash_shape = true, plan_ok memswap_plan = true,
+   table_cmp_by_lookup = true are discharged by computation, `eq_refl`): if Float_Hash or Table_Cmp go
+   back to their pinned shape, or memswap gets a loop structure that does not cover every byte once,
+   the statements below no longer type-check against the lemmas. *)
 From CelloV Require Import Generated RobinHood TableModel TableProofs HashModel HashFloat HashProofs HashTable.
 
 (* eq(a,b) implies hash(a) = hash(b): all well-formed values (int64, non-NaN doubles, strings, types,
@@ -11,9 +14,9 @@ From CelloV Require Import Generated RobinHood TableModel TableProofs HashModel 
 Theorem eq_implies_equal_hash : forall a b : value,
   v_wf a = true -> v_wf b = true ->
   v_cmp table_cmp_by_lookup a b = Some 0%Z ->
-  v_hash hash_m hash_r hash_seed float_hash_normalises_zero a =
-  v_hash hash_m hash_r hash_seed float_hash_normalises_zero b.
-Proof. exact (HashProofs.v_eq_hash hash_m hash_r hash_seed table_cmp_by_lookup). Qed.
+  v_hash (hash_data hash_m hash_r hash_seed hash_tail_shape) float_hash_shape a =
+  v_hash (hash_data hash_m hash_r hash_seed hash_tail_shape) float_hash_shape b.
+Proof. exact (HashProofs.v_eq_hash (hash_data hash_m hash_r hash_seed hash_tail_shape) table_cmp_by_lookup float_hash_shape eq_refl). Qed.
 Print Assumptions eq_implies_equal_hash.
 
 Example eq_implies_equal_hash_nonvacuous :
@@ -26,8 +29,8 @@ Proof. exact HashProofs.ex_float_keys_nonvacuous. Qed.
 
 (* the model's hashes are 64-bit words (what the C type uint64_t holds) *)
 Theorem hash_is_a_64_bit_word : forall a : value,
-  v_wf a = true -> (v_hash hash_m hash_r hash_seed float_hash_normalises_zero a < M64)%N.
-Proof. exact (HashProofs.v_hash_lt hash_m hash_r hash_seed). Qed.
+  v_wf a = true -> (v_hash (hash_data hash_m hash_r hash_seed hash_tail_shape) float_hash_shape a < M64)%N.
+Proof. exact (HashProofs.v_hash_lt (hash_data hash_m hash_r hash_seed hash_tail_shape) float_hash_shape (HashProofs.hash_data_lt hash_m hash_r hash_seed hash_tail_shape) eq_refl). Qed.
 Print Assumptions hash_is_a_64_bit_word.
 
 (* the Float clause on bit patterns: Float_Cmp = 0 on non-NaN doubles only for identical doubles
@@ -37,6 +40,13 @@ Theorem float_cmp_zero_only_for_equal : forall a b : N,
   float_cmp a b = 0%Z -> a = b \/ (f_is_zero a = true /\ f_is_zero b = true).
 Proof. exact HashFloat.float_cmp_zero. Qed.
 Print Assumptions float_cmp_zero_only_for_equal.
+
+(* whichever of its two shapes Float_Cmp has in the source (sign of the rounded difference, or the
+   operands compared directly) it is the function float_cmp of the model, on ALL pairs of doubles *)
+Theorem float_cmp_form_denotes_float_cmp : forall a b : N,
+  float_cmp_of_form float_cmp_form a b = float_cmp a b.
+Proof. exact (HashFloat.float_cmp_forms_agree float_cmp_form). Qed.
+Print Assumptions float_cmp_form_denotes_float_cmp.
 
 Example float_cmp_zero_nonvacuous :
   (0 < M64)%N /\ f_is_nan 0 = false /\ f_is_nan 9223372036854775808 = false /\ float_cmp 0 9223372036854775808 = 0%Z.
@@ -52,9 +62,9 @@ Print Assumptions cmp_reflexive.
 Theorem copy_is_eq_and_hashes_equal : forall a c : value,
   v_wf a = true -> v_copy a = Some c ->
   v_cmp table_cmp_by_lookup c a = Some 0%Z /\ v_cmp table_cmp_by_lookup a c = Some 0%Z /\
-  v_hash hash_m hash_r hash_seed float_hash_normalises_zero c =
-  v_hash hash_m hash_r hash_seed float_hash_normalises_zero a.
-Proof. exact (HashProofs.copy_eq_hash hash_m hash_r hash_seed table_cmp_by_lookup). Qed.
+  v_hash (hash_data hash_m hash_r hash_seed hash_tail_shape) float_hash_shape c =
+  v_hash (hash_data hash_m hash_r hash_seed hash_tail_shape) float_hash_shape a.
+Proof. exact (HashProofs.copy_eq_hash (hash_data hash_m hash_r hash_seed hash_tail_shape) table_cmp_by_lookup float_hash_shape). Qed.
 Print Assumptions copy_is_eq_and_hashes_equal.
 
 Example copy_nonvacuous : v_wf (VMap KTable ex_m) = true /\ v_copy (VMap KTable ex_m) = Some (VMap KTable ex_m).
@@ -64,11 +74,11 @@ Proof. exact HashProofs.ex_copy_nonvacuous. Qed.
    from a Box, holds the same address but the two types cannot be compared) *)
 Theorem assign_is_eq_and_hashes_equal : forall dst src y : value,
   v_wf src = true -> v_assign dst src = Some y ->
-  v_hash hash_m hash_r hash_seed float_hash_normalises_zero y =
-  v_hash hash_m hash_r hash_seed float_hash_normalises_zero src /\
+  v_hash (hash_data hash_m hash_r hash_seed hash_tail_shape) float_hash_shape y =
+  v_hash (hash_data hash_m hash_r hash_seed hash_tail_shape) float_hash_shape src /\
   (v_cmp table_cmp_by_lookup y src = Some 0%Z \/
    exists p, (y = VBox p /\ src = VRef p) \/ (y = VRef p /\ src = VBox p)).
-Proof. exact (HashProofs.assign_eq_hash hash_m hash_r hash_seed table_cmp_by_lookup). Qed.
+Proof. exact (HashProofs.assign_eq_hash (hash_data hash_m hash_r hash_seed hash_tail_shape) table_cmp_by_lookup float_hash_shape). Qed.
 Print Assumptions assign_is_eq_and_hashes_equal.
 
 Example assign_nonvacuous :
@@ -85,23 +95,35 @@ Print Assumptions swap_exchanges.
 Example swap_nonvacuous : v_swap ex_a (VSeq KArray nil) = Some (VSeq KArray nil, ex_a).
 Proof. exact HashProofs.ex_swap_nonvacuous. Qed.
 
-(* the byte-wise loop of memswap (src/Assign.c) exchanges two struct images of the same size *)
+(* memswap (src/Assign.c), whatever loop structure the source has: its loops are read as a plan of
+   (tag, width) steps (Generated.memswap_plan); the plan exchanges every byte below s exactly once, so
+   two struct images of the same size are exchanged *)
 Theorem memswap_exchanges_bytes : forall a b : list N,
-  length a = length b -> memswap a b (length a) = (b, a).
-Proof. exact HashProofs.memswap_exchanges. Qed.
+  length a = length b -> run_plan memswap_plan (length a) a b = (b, a).
+Proof. exact (HashProofs.plan_exchanges memswap_plan eq_refl). Qed.
 Print Assumptions memswap_exchanges_bytes.
 
-Example memswap_nonvacuous : memswap (1 :: 2 :: 3 :: nil)%N (7 :: 8 :: 9 :: nil)%N 3 = ((7 :: 8 :: 9 :: nil)%N, (1 :: 2 :: 3 :: nil)%N).
+Example memswap_nonvacuous :
+  run_plan memswap_plan 3 (1 :: 2 :: 3 :: nil)%N (7 :: 8 :: 9 :: nil)%N = ((7 :: 8 :: 9 :: nil)%N, (1 :: 2 :: 3 :: nil)%N).
 Proof. exact (eq_refl _). Qed.
+
+(* a word step that does not advance the cursor (the byte loop then exchanges those bytes back) is
+   neither accepted nor correct *)
+Theorem memswap_plan_without_advance_refuted :
+  plan_ok ((0, 8) :: (2, 4) :: (0, 1) :: nil) = false /\
+  run_plan ((0, 8) :: (2, 4) :: (0, 1) :: nil) 4 (1 :: 2 :: 3 :: 4 :: nil)%N (5 :: 6 :: 7 :: 8 :: nil)%N
+    <> ((5 :: 6 :: 7 :: 8 :: nil)%N, (1 :: 2 :: 3 :: 4 :: nil)%N).
+Proof. exact HashProofs.plan_no_advance_refuted. Qed.
+Print Assumptions memswap_plan_without_advance_refuted.
 
 (* Table equality and hash do not depend on the order of the bindings (= the slot order) *)
 Theorem table_eq_independent_of_slot_order : forall (k k' : mkind) (mp mp' : list (value * value)),
   v_wf (VMap KTable mp) = true -> Permutation.Permutation mp mp' ->
   v_wf (VMap k' mp') = true /\
   v_cmp table_cmp_by_lookup (VMap KTable mp) (VMap k' mp') = Some 0%Z /\
-  v_hash hash_m hash_r hash_seed float_hash_normalises_zero (VMap k mp) =
-  v_hash hash_m hash_r hash_seed float_hash_normalises_zero (VMap k' mp').
-Proof. exact (fun k k' mp mp' => HashProofs.map_perm_eq hash_m hash_r hash_seed table_cmp_by_lookup k k' mp mp' eq_refl). Qed.
+  v_hash (hash_data hash_m hash_r hash_seed hash_tail_shape) float_hash_shape (VMap k mp) =
+  v_hash (hash_data hash_m hash_r hash_seed hash_tail_shape) float_hash_shape (VMap k' mp').
+Proof. exact (fun k k' mp mp' => HashProofs.map_perm_eq (hash_data hash_m hash_r hash_seed hash_tail_shape) table_cmp_by_lookup float_hash_shape eq_refl k k' mp mp' eq_refl). Qed.
 Print Assumptions table_eq_independent_of_slot_order.
 
 Example table_eq_nonvacuous :
@@ -130,10 +152,10 @@ Theorem int_table_copy_is_eq_and_hashes_equal : forall (hash : Z -> N) (t : tabl
   exists t', t_assign_from Z value Z.eqb hash table_swap table_primes table_load_num table_load_den t = Some t' /\
     v_cmp table_cmp_by_lookup (VMap KTable (emb t')) (VMap KTable (emb t)) = Some 0%Z /\
     v_cmp table_cmp_by_lookup (VMap KTable (emb t)) (VMap KTable (emb t')) = Some 0%Z /\
-    v_hash hash_m hash_r hash_seed float_hash_normalises_zero (VMap KTable (emb t')) =
-    v_hash hash_m hash_r hash_seed float_hash_normalises_zero (VMap KTable (emb t)) /\
+    v_hash (hash_data hash_m hash_r hash_seed hash_tail_shape) float_hash_shape (VMap KTable (emb t')) =
+    v_hash (hash_data hash_m hash_r hash_seed hash_tail_shape) float_hash_shape (VMap KTable (emb t)) /\
     length (emb t') = length (emb t).
-Proof. exact (HashTable.int_table_copy_eq_hash hash_m hash_r hash_seed). Qed.
+Proof. exact (HashTable.int_table_copy_eq_hash (hash_data hash_m hash_r hash_seed hash_tail_shape) float_hash_shape eq_refl). Qed.
 Print Assumptions int_table_copy_is_eq_and_hashes_equal.
 
 Example int_table_copy_nonvacuous :
@@ -149,10 +171,10 @@ Theorem int_table_copy_after_any_history : forall (hash : Z -> N) (ops : list (o
   exists t', t_assign_from Z value Z.eqb hash table_swap table_primes table_load_num table_load_den t = Some t' /\
     v_cmp table_cmp_by_lookup (VMap KTable (emb t')) (VMap KTable (emb t)) = Some 0%Z /\
     v_cmp table_cmp_by_lookup (VMap KTable (emb t)) (VMap KTable (emb t')) = Some 0%Z /\
-    v_hash hash_m hash_r hash_seed float_hash_normalises_zero (VMap KTable (emb t')) =
-    v_hash hash_m hash_r hash_seed float_hash_normalises_zero (VMap KTable (emb t)) /\
+    v_hash (hash_data hash_m hash_r hash_seed hash_tail_shape) float_hash_shape (VMap KTable (emb t')) =
+    v_hash (hash_data hash_m hash_r hash_seed hash_tail_shape) float_hash_shape (VMap KTable (emb t)) /\
     length (emb t') = length (emb t).
-Proof. exact (HashTable.int_table_history_copy hash_m hash_r hash_seed). Qed.
+Proof. exact (HashTable.int_table_history_copy (hash_data hash_m hash_r hash_seed hash_tail_shape) float_hash_shape eq_refl). Qed.
 Print Assumptions int_table_copy_after_any_history.
 
 (* hash and eq are functions of the bindings alone: two histories (other insertion orders, removals,
@@ -165,22 +187,22 @@ Theorem int_table_same_bindings_eq_and_hash : forall (hash1 hash2 : Z -> N) (ops
   entries_wf t1 ->
   v_cmp table_cmp_by_lookup (VMap KTable (emb t1)) (VMap KTable (emb t2)) = Some 0%Z /\
   v_cmp table_cmp_by_lookup (VMap KTable (emb t2)) (VMap KTable (emb t1)) = Some 0%Z /\
-  v_hash hash_m hash_r hash_seed float_hash_normalises_zero (VMap KTable (emb t1)) =
-  v_hash hash_m hash_r hash_seed float_hash_normalises_zero (VMap KTable (emb t2)).
-Proof. exact (HashTable.int_table_histories_eq_hash hash_m hash_r hash_seed). Qed.
+  v_hash (hash_data hash_m hash_r hash_seed hash_tail_shape) float_hash_shape (VMap KTable (emb t1)) =
+  v_hash (hash_data hash_m hash_r hash_seed hash_tail_shape) float_hash_shape (VMap KTable (emb t2)).
+Proof. exact (HashTable.int_table_histories_eq_hash (hash_data hash_m hash_r hash_seed hash_tail_shape) float_hash_shape eq_refl). Qed.
 Print Assumptions int_table_same_bindings_eq_and_hash.
 
 Example histories_nonvacuous :
   Permutation.Permutation (spec_run Z value Z.eqb hist1 nil) (spec_run Z value Z.eqb hist2 nil) /\
-  entries_wf (T_run Z value Z.eqb zt_hash hist1) /\
-  t_iter Z value (T_run Z value Z.eqb zt_hash hist1) <> t_iter Z value (T_run Z value Z.eqb zt_hash hist2).
+  hist1 <> hist2 /\ entries_wf (T_run Z value Z.eqb zt_hash hist1).
 Proof. exact HashTable.histories_nonvacuous. Qed.
 
-(* the copy of a reachable table can list its bindings in another order (why the pinned Table_Cmp failed) *)
+(* the copy of a reachable table can list its bindings in another order (why the pinned Table_Cmp failed);
+   stated for the pinned configuration (prime table prefix, load 9/10, strict rule), not for today's tuning *)
 Theorem copy_changes_slot_order :
   t_iter Z Z witness_table = ((3%Z, 2%Z) :: (7%Z, 1%Z) :: nil) /\
   option_map (t_iter Z Z)
-    (t_assign_from Z Z Z.eqb zt_hash table_swap table_primes table_load_num table_load_den witness_table)
+    (t_assign_from Z Z Z.eqb zt_hash pin_swap pin_primes 9%N 10%N witness_table)
   = Some ((7%Z, 1%Z) :: (3%Z, 2%Z) :: nil).
 Proof. exact HashTable.copy_changes_order. Qed.
 Print Assumptions copy_changes_slot_order.
@@ -188,7 +210,7 @@ Print Assumptions copy_changes_slot_order.
 (* the pinned variants are refuted *)
 Theorem float_hash_raw_refuted :
   exists a b, v_wf (VFloat a) = true /\ v_wf (VFloat b) = true /\
-              float_cmp a b = 0%Z /\ float_hash false a <> float_hash false b.
+              float_cmp a b = 0%Z /\ float_hash 0 a <> float_hash 0 b.
 Proof. exact HashProofs.float_hash_raw_refuted. Qed.
 Print Assumptions float_hash_raw_refuted.
 
@@ -199,10 +221,11 @@ Proof. exact HashProofs.table_walk_refuted. Qed.
 Print Assumptions table_walk_refuted.
 
 (* the code shapes the model encodes are still the ones in the source (tools/genx_hash.py): loop,
-   tail switch and finish of hash_data; Int_Hash; Float_Cmp; the five XOR folds; memswap and swap;
-   copy = alloc + assign *)
+   finish of hash_data (its tail in one of the two modelled shapes); Int_Hash; the five XOR folds; swap's
+   dispatch; copy = alloc + assign.  Float_Hash, Float_Cmp, memswap and Table_Cmp come as shape
+   parameters (float_hash_shape, float_cmp_form, memswap_plan, table_cmp_by_lookup) used above *)
 Theorem source_shapes_as_modelled :
-  hash_data_shape_ok && int_hash_shape_ok && hash_float_cmp_shape_ok && xor_fold_shape_ok
-  && memswap_shape_ok && copy_shape_ok = true.
+  hash_data_shape_ok && (hash_tail_shape <=? 1) && int_hash_shape_ok && xor_fold_shape_ok
+  && swap_shape_ok && copy_shape_ok = true.
 Proof. exact (eq_refl true). Qed.
 Print Assumptions source_shapes_as_modelled.
